@@ -342,6 +342,17 @@ func probeStructFields(p *pkgFiles, name string) (names, types []string) {
 	return
 }
 
+// socksDisjuncts flattens a || b || c.
+func socksDisjuncts(e ast.Expr) []ast.Expr {
+	if pe, ok := e.(*ast.ParenExpr); ok {
+		return socksDisjuncts(pe.X)
+	}
+	if be, ok := e.(*ast.BinaryExpr); ok && be.Op == token.LOR {
+		return append(socksDisjuncts(be.X), socksDisjuncts(be.Y)...)
+	}
+	return []ast.Expr{e}
+}
+
 // socksConjuncts flattens a && b && c.
 func socksConjuncts(e ast.Expr) []ast.Expr {
 	if pe, ok := e.(*ast.ParenExpr); ok {
@@ -518,13 +529,41 @@ func genSocksConsts() {
 	fmt.Fprintf(&b, "Definition socks_reply_decode : list string := %s%%string.\n",
 		coqStringList([]string{probeExprString(br[0].Args[1]), into}))
 
-	// Scan: the comparison that decides a report, and the record
+	// Scan: the comparison that decides a report, and the record.  Either inline in Scan
+	//     if reply.F == c && ... { result = &ScanResult{...} }
+	// or in a package-level helper that Scan calls and that contains the literal
+	//     if reply.F != c || ... { return nil }; return &ScanResult{...}
+	// which is DESCRIBED (socks_decision_shape, socks_result_typed_nil_hazard) rather than refused: a helper whose
+	// declared result is a pointer type makes `result = helper(...)` store a TYPED nil in the scan.Result interface,
+	// which the engine's `result != nil` takes for a record.
+	decFn := scan // the function that holds the literal and the comparison
+	shape, hazard := "inline", false
 	rls := probeFindLit(scan, "ScanResult")
+	if len(rls) == 0 {
+		for _, f := range p.files {
+			for _, d := range f.Decls {
+				fd, ok := d.(*ast.FuncDecl)
+				if !ok || fd.Recv != nil || fd.Body == nil || len(probeFindCalls(scan, fd.Name.Name)) == 0 {
+					continue
+				}
+				if l := probeFindLit(fd, "ScanResult"); len(l) == 1 {
+					decFn, rls = fd, l
+					rt := ""
+					if fd.Type.Results != nil && len(fd.Type.Results.List) == 1 {
+						rt = probeExprString(fd.Type.Results.List[0].Type)
+					}
+					shape = "helper " + fd.Name.Name + " returning " + rt
+					hazard = strings.HasPrefix(rt, "*")
+				}
+			}
+		}
+	}
 	if len(rls) != 1 {
-		die("%s: Scan does not build exactly one ScanResult", p.pos(scan))
+		die("%s: neither Scan nor a helper it calls builds exactly one ScanResult", p.pos(scan))
 	}
 	var cond ast.Expr
-	ast.Inspect(scan, func(n ast.Node) bool {
+	negated := false // cond is the condition under which NOTHING is reported (a disjunction of !=)
+	ast.Inspect(decFn, func(n ast.Node) bool {
 		is, ok := n.(*ast.IfStmt)
 		if !ok {
 			return true
@@ -537,8 +576,23 @@ func genSocksConsts() {
 		}
 		return true
 	})
+	if cond == nil && decFn != scan {
+		// early return of nil before the literal
+		for _, st := range decFn.Body.List {
+			is, ok := st.(*ast.IfStmt)
+			if !ok || is.Init != nil || is.Else != nil || len(is.Body.List) != 1 || is.End() > rls[0].Pos() {
+				continue
+			}
+			if rs, ok := is.Body.List[0].(*ast.ReturnStmt); ok && len(rs.Results) == 1 && probeExprString(rs.Results[0]) == "nil" {
+				if cond != nil {
+					die("%s: more than one early return before the record", p.pos(is))
+				}
+				cond, negated = is.Cond, true
+			}
+		}
+	}
 	if cond == nil {
-		die("%s: the record is not built under an if", p.pos(scan))
+		die("%s: the record is not built under an if (nor after an early `return nil`)", p.pos(decFn))
 	}
 	// the variable holding the reply: the receiver of the ReadFrom call
 	rfc := probeFindCalls(scan, "ReadFrom")
@@ -546,6 +600,25 @@ func genSocksConsts() {
 		die("%s: Scan does not call ReadFrom exactly once", p.pos(scan))
 	}
 	replyVar := probeExprString(rfc[0].Fun.(*ast.SelectorExpr).X)
+	decReply := replyVar // the name of the reply inside decFn
+	decReq := ""         // the name of the request inside decFn
+	for _, f := range decFn.Type.Params.List {
+		for _, n := range f.Names {
+			switch probeExprString(f.Type) {
+			case "*MethodReply":
+				if decFn != scan {
+					decReply = n.Name
+				}
+			case "*scan.Request":
+				decReq = n.Name
+			}
+		}
+	}
+	if decReq == "" {
+		die("%s: no *scan.Request parameter", p.pos(decFn))
+	}
+	fmt.Fprintf(&b, "Definition socks_decision_shape : string := %s%%string.\n", coqString(shape))
+	fmt.Fprintf(&b, "Definition socks_result_typed_nil_hazard : bool := %s.\n", coqBool(hazard))
 	// GenericEngine shares one Scanner between all workers: the reply must be decoded into a value that
 	// belongs to this call alone, and Scan must not write to (or hand out pointers into) the Scanner
 	fmt.Fprintf(&b, "Definition socks_reply_fresh_local : bool := %s.\n",
@@ -554,20 +627,24 @@ func genSocksConsts() {
 	fmt.Fprintf(&b, "Definition socks_scan_writes_scanner : list string := %s%%string.\n", coqStringList(sw))
 	fmt.Fprintf(&b, "Definition socks_scan_scanner_field_addrs : list string := %s%%string.\n", coqStringList(sa))
 	accept := map[string]string{}
-	for _, c := range socksConjuncts(cond) {
+	parts, wantOp := socksConjuncts(cond), token.EQL
+	if negated {
+		parts, wantOp = socksDisjuncts(cond), token.NEQ
+	}
+	for _, c := range parts {
 		be, ok := c.(*ast.BinaryExpr)
-		if !ok || be.Op != token.EQL {
-			die("%s: report condition is not a conjunction of equalities", p.pos(c))
+		if !ok || be.Op != wantOp {
+			die("%s: report condition is not a conjunction of equalities (or an early return on a disjunction of inequalities)", p.pos(c))
 		}
 		l, r := be.X, be.Y
-		if !strings.HasPrefix(probeExprString(l), replyVar+".") {
+		if !strings.HasPrefix(probeExprString(l), decReply+".") {
 			l, r = r, l
 		}
 		ls := probeExprString(l)
-		if !strings.HasPrefix(ls, replyVar+".") {
-			die("%s: report condition does not test a field of %s", p.pos(c), replyVar)
+		if !strings.HasPrefix(ls, decReply+".") {
+			die("%s: report condition does not test a field of %s", p.pos(c), decReply)
 		}
-		f := strings.TrimPrefix(ls, replyVar+".")
+		f := strings.TrimPrefix(ls, decReply+".")
 		if _, dup := accept[f]; dup {
 			die("%s: field %s tested twice", p.pos(c), f)
 		}
@@ -593,6 +670,19 @@ func genSocksConsts() {
 	}
 	req := scan.Type.Params.List[1].Names[0].Name
 	rfs := probeLitFields(p, rls[0])
+	// inside a helper the request has the helper's parameter name; the helper must be called with Scan's request
+	if decFn != scan {
+		call := probeFindCalls(scan, decFn.Name.Name)[0]
+		passed := false
+		for _, a := range call.Args {
+			if probeExprString(a) == req {
+				passed = true
+			}
+		}
+		if !passed {
+			die("%s: the helper is not called with Scan's request", p.pos(call))
+		}
+	}
 	need := map[string]bool{"ScanType": true, "Version": true, "IP": true, "Port": true}
 	for k := range rfs {
 		if !need[k] {
@@ -610,7 +700,7 @@ func genSocksConsts() {
 		die("%s: record ScanType is %s", p.pos(rfs["ScanType"]), st)
 	}
 	norm := func(e ast.Expr) string {
-		return strings.Replace(probeExprString(probeResolveLocal(scan, e)), req+".", "request.", 1)
+		return strings.Replace(probeExprString(probeResolveLocal(decFn, e)), decReq+".", "request.", 1)
 	}
 	fmt.Fprintf(&b, "Definition socks_result_ip_from : string := %s%%string.\n", coqString(norm(rfs["IP"])))
 	fmt.Fprintf(&b, "Definition socks_result_port_from : string := %s%%string.\n", coqString(norm(rfs["Port"])))
